@@ -455,7 +455,7 @@ impl Program {
             let mut changed = false;
             for (d, def) in self.defs.iter().enumerate() {
                 for i in 0..def.params.len() {
-                    if used[d][i] || def.params[i].skipped {
+                    if used[d][i] || (def.params[i].skipped && !def.params[i].config) {
                         continue;
                     }
                     if def.all_fields().iter().any(|f| occurs(&f.ty, i, &used)) {
@@ -473,34 +473,70 @@ impl Program {
     /// the definition as far as the registry's type graph records it: pointers, sequence kinds,
     /// PhantomData, parameter names, docs, the spelling of compact and arguments without influence erased
     pub fn erased_def(&self, d: usize, used: &Vec<Vec<bool>>) -> String {
-        fn ty(p: &Program, t: &Ty, used: &Vec<Vec<bool>>) -> String {
-            let l = |v: &[Ty]| v.iter().filter(|t| !matches!(t, Ty::Phantom(_))).map(|t| ty(p, t, used)).collect::<Vec<_>>().join(",");
+        self.erased_def_with(d, used, &|x| self.defs[x].path.join("::"))
+    }
+
+    /// Classes of definitions with equal wire shape, references to other definitions compared by (path, class)
+    /// coinductively (coarsest partition that is stable under `erased_def_with`): two copies of a definition whose
+    /// references go to equal copies are in one class although they mention different definitions.
+    pub fn shape_classes(&self) -> Vec<usize> {
+        // every argument the registry records counts (an argument without influence on the bytes still is part of
+        // the type expression the generator writes): all non-skipped parameters
+        // (a skipped `T: Config` parameter still decides the shape through `T::Inner`)
+        let used: Vec<Vec<bool>> = self.defs.iter().map(|d| d.params.iter().map(|p| !p.skipped || p.config).collect()).collect();
+        let n = self.defs.len();
+        let mut classes = vec![0usize; n];
+        for _ in 0..=n {
+            let keys: Vec<String> = (0..n)
+                .map(|d| self.erased_def_with(d, &used, &|x| format!("{}#{}", self.defs[x].path.join("::"), classes[x])))
+                .collect();
+            let mut sorted: Vec<&String> = keys.iter().collect();
+            sorted.sort();
+            sorted.dedup();
+            let next: Vec<usize> = keys.iter().map(|k| sorted.binary_search(&k).unwrap_or(0)).collect();
+            // compare as partitions
+            let same = (0..n).all(|a| (0..n).all(|b| (classes[a] == classes[b]) == (next[a] == next[b])));
+            classes = next;
+            if same {
+                break;
+            }
+        }
+        classes
+    }
+
+    pub fn erased_def_with(&self, d: usize, used: &Vec<Vec<bool>>, refname: &dyn Fn(usize) -> String) -> String {
+        fn ty(p: &Program, t: &Ty, used: &Vec<Vec<bool>>, refname: &dyn Fn(usize) -> String) -> String {
+            let l = |v: &[Ty]| v.iter().filter(|t| !matches!(t, Ty::Phantom(_))).map(|t| ty(p, t, used, refname)).collect::<Vec<_>>().join(",");
             match t {
                 Ty::Param(i) => format!("${i}"),
                 Ty::Assoc(i) => format!("${i}::Inner"),
                 Ty::Prim(x) => x.name().to_string(),
                 Ty::StrSlice => "String".into(),
                 Ty::Def(d, a) => {
-                    let args: Vec<String> = a.iter().enumerate().filter(|(k, _)| used[*d].get(*k).copied().unwrap_or(false)).map(|(_, t)| ty(p, t, used)).collect();
-                    format!("{}<{}>", p.defs[*d].path.join("::"), args.join(","))
+                    let args: Vec<String> = a.iter().enumerate().filter(|(k, _)| used[*d].get(*k).copied().unwrap_or(false)).map(|(_, t)| ty(p, t, used, refname)).collect();
+                    format!("{}<{}>", refname(*d), args.join(","))
                 }
                 Ty::Tuple(a) => format!("({})", l(a)),
-                Ty::Array(n, t) => format!("[{};{n}]", ty(p, t, used)),
-                Ty::Seq(_, t) => format!("Vec<{}>", ty(p, t, used)),
-                Ty::Opt(t) => format!("Option<{}>", ty(p, t, used)),
-                Ty::Res(a, b) => format!("Result<{},{}>", ty(p, a, used), ty(p, b, used)),
-                Ty::Ptr(_, t) => ty(p, t, used),
-                Ty::Cow(t) => format!("Cow<{}>", ty(p, t, used)),
-                Ty::Map(a, b) => format!("Map<{},{}>", ty(p, a, used), ty(p, b, used)),
-                Ty::Set(t) => format!("Set<{}>", ty(p, t, used)),
-                Ty::Heap(t) => format!("Heap<{}>", ty(p, t, used)),
-                Ty::Range(t) => format!("Range<{}>", ty(p, t, used)),
-                Ty::RangeIncl(t) => format!("RangeIncl<{}>", ty(p, t, used)),
+                Ty::Array(n, t) => format!("[{};{n}]", ty(p, t, used, refname)),
+                Ty::Seq(_, t) => format!("Vec<{}>", ty(p, t, used, refname)),
+                Ty::Opt(t) => format!("Option<{}>", ty(p, t, used, refname)),
+                // `Result<X, X>`: both parameters of the prelude type get ONE id, and its fields carry no type name, so
+                // the generator's parameter matching (by id) sees a different type than in `Result<X', X>` even when X'
+                // and X differ in a skipped argument only
+                Ty::Res(a, b) if a.exact() == b.exact() => format!("ResultOfOneType<{}>", ty(p, a, used, refname)),
+                Ty::Res(a, b) => format!("Result<{},{}>", ty(p, a, used, refname), ty(p, b, used, refname)),
+                Ty::Ptr(_, t) => ty(p, t, used, refname),
+                Ty::Cow(t) => format!("Cow<{}>", ty(p, t, used, refname)),
+                Ty::Map(a, b) => format!("Map<{},{}>", ty(p, a, used, refname), ty(p, b, used, refname)),
+                Ty::Set(t) => format!("Set<{}>", ty(p, t, used, refname)),
+                Ty::Heap(t) => format!("Heap<{}>", ty(p, t, used, refname)),
+                Ty::Range(t) => format!("Range<{}>", ty(p, t, used, refname)),
+                Ty::RangeIncl(t) => format!("RangeIncl<{}>", ty(p, t, used, refname)),
                 Ty::NonZero(x) => format!("NonZero<{}>", x.name()),
                 Ty::Duration => "Duration".into(),
-                Ty::Compact(t) => format!("Compact<{}>", ty(p, t, used)),
+                Ty::Compact(t) => format!("Compact<{}>", ty(p, t, used, refname)),
                 Ty::BitVec(s, m) => format!("BitVec<{},{}>", s.name(), m),
-                Ty::BitVecP(a, b) => format!("BitVec<{},{}>", ty(p, a, used), ty(p, b, used)),
+                Ty::BitVecP(a, b) => format!("BitVec<{},{}>", ty(p, a, used, refname), ty(p, b, used, refname)),
                 Ty::BitOrder(m) => format!("{m}"),
                 Ty::Phantom(_) => String::new(),
             }
@@ -511,7 +547,7 @@ impl Program {
                 .iter()
                 .filter(|fd| !matches!(fd.ty, Ty::Phantom(_)))
                 .map(|fd| {
-                    let t = ty(self, &fd.ty, used);
+                    let t = ty(self, &fd.ty, used, refname);
                     format!("{}:{}", fd.name.clone().unwrap_or_default(), if fd.compact_attr { format!("Compact<{t}>") } else { t })
                 })
                 .collect::<Vec<_>>()
